@@ -37,3 +37,17 @@ Print Assumptions C12_rev_table.
 Theorem C12_conn_sets_sorted : forall d s, dep_sorted (cs_fwd (conn_set d s)) /\ arr_sorted_desc (cs_rev (conn_set d s)).
 Proof. intros d s. split; [apply conn_set_fwd_sorted | apply conn_set_rev_sorted]. Qed.
 Print Assumptions C12_conn_sets_sorted.
+
+(* tie to the source: the model's forward step and best-egress selection are the control skeleton instantiated with
+   the guards tools/gen_guards.py translated from forward_calculation.cpp AS IT IS NOW (gen/Guards.v) *)
+From TrV Require Import Proofs.GuardsTie.
+Theorem C12_forward_step_is_code : forall d p k st c, fwd_step_code d p k st c = fwd_step d p k false st c.
+Proof. exact fwd_step_tie. Qed.
+Print Assumptions C12_forward_step_is_code.
+Theorem C12_best_egress_is_code : forall p k st, best_egress_sk G.gen_fwd_best_time G.gen_fwd_best_ok p k st = best_egress p k st.
+Proof. exact best_egress_tie. Qed.
+Print Assumptions C12_best_egress_is_code.
+
+Theorem C12_reverse_step_is_code : forall d p k st c, rev_step_code d p k st c = rev_step d p k false st c.
+Proof. exact rev_step_tie. Qed.
+Print Assumptions C12_reverse_step_is_code.
